@@ -136,7 +136,7 @@ def _run_impl_shard(cmd, cases, path, mode, crashed, skipped):
         skipped.extend(c.id for c in todo)
     return res
 
-def run_cases(cases, workdir, tag, full=False, fill='a5', mode=None, impl=True, model=True, release=False):
+def run_cases(cases, workdir, tag, full=False, fill='a5', mode=None, impl=True, model=True, release=False, hang_s=None):
     """Run cases on the implementation and/or the model, sharded over the
     cores.  Returns (impl_steps, model_steps, hang_case)."""
     os.makedirs(workdir, exist_ok=True)
@@ -160,7 +160,7 @@ def run_cases(cases, workdir, tag, full=False, fill='a5', mode=None, impl=True, 
                         f.write(c.text(mode))
                 pms.append(_run_proc(DRIVER_CMD + (['--full'] if full else []), mpath))
             if impl:
-                cmd = [harness_bin(release)] + (['--full'] if full else []) + ['--fill', fill]
+                cmd = [harness_bin(release)] + (['--full'] if full else []) + ['--fill', fill] + (['--hang', str(hang_s)] if hang_s else [])
                 futs.append(ex.submit(_run_impl_shard, cmd, sh_cases, path, mode, crashed, skipped))
         for f in futs:
             impl_steps.update(f.result())
